@@ -125,6 +125,10 @@ def export_ops(tp, ctx, fam, blocks, undo, fgn, tag, simulate=None, depth=0, tim
                     rich += [{"a": "Submit", "t": t, "mode": "net", "k": 0, "txs": [], "d": 0, "blks": []} for t in o["txs"]]
                 rich.append(o)
             ops = rich
+        for o in ops:       # where the pool file is damaged is the driver's choice
+            if o["a"] == "SaveCutLoad":
+                o["k"] = rng.randrange(1 << 20)
+                o["mode"] = "corrupt" if rng.random() < 0.2 else "cut"
         for o in ops:       # "trusted" and the operator's own transactions differ from "net" only outside the model
             if o["a"] == "Submit" and o["mode"] == "net" and o["t"] not in badscript and rng.random() < 0.25:
                 o["mode"] = "trusted"
@@ -435,6 +439,10 @@ def count_events(stats, events):
         if ev == "Tick" and gone:
             inc("ticks_removing", 1)
             inc("removed_by_tick", len(gone))
+        if ev == "SaveLoad" and not e["acc"]:
+            inc("restarts_on_damaged_pool_file")
+            if pre:
+                inc("restarts_on_damaged_pool_file_with_pooled_txs")
         if ev == "SaveLoad" and post:
             inc("saveload_nonempty")
             if set(pre) != set(post):
